@@ -25,6 +25,9 @@
 //	8 m k n  Burst: k StartHeartbeat calls with nothing parked in between (m = 0: back to back from one goroutine
 //	         under GOMAXPROCS(1); m = 1: k goroutines released together), then a free run of n refreshes
 //	0 t w    Setup with a peer whose connection takes w ms per write
+//	0 t w 1  Setup where, in addition, a peer whose connection has no outgoing side subscribed first
+//	9 m k    First: on k fresh entities AddFunctionType(heartbeat) and the first other access (m = 0 IsHeartbeatRunning,
+//	         1 HeartbeatManager(), 2 StartHeartbeat) released together; then run, stop, watch (obs 18 notrunning leaky)
 //	7 [1]    DataCopy(heartbeat); with 1 (and after every stop) more than one period of real time passes first
 //
 // obs encoding: 0 ready, 1 busy, 2 blocked, 3 not runnable, 4 h parked at hook h, 5 done, 6 b
@@ -163,12 +166,34 @@ func poisoned() bool {
 }
 
 func fallbackYield(point string) {
+	if _, ok := auxGoids.Load(goid()); ok {
+		return
+	}
 	if point == "Heartbeat.fired" && poisoned() {
 		select {}
 	}
 }
 
+// streams of the auxiliary fresh entities of operation First run freely and are not numbered
+var auxMode atomic.Bool
+var auxGoids sync.Map // goroutine id -> true
+var auxStarted atomic.Int64
+
 func (s *sched) yield(point string) {
+	if strings.HasPrefix(point, "Heartbeat.") {
+		id := goid()
+		if point == "Heartbeat.started" && auxMode.Load() {
+			auxGoids.Store(id, true)
+			auxStarted.Add(1)
+			return
+		}
+		if _, ok := auxGoids.Load(id); ok {
+			if point == "Heartbeat.exited" {
+				auxGoids.Delete(id)
+			}
+			return
+		}
+	}
 	switch point {
 	case "StopHeartbeat.checked", "StartHeartbeat.stopped":
 		s.mu.Lock()
@@ -340,6 +365,8 @@ func (s *sched) settle(w *worker) int {
 const localDev = "local"
 const peerDev = "peer0"
 const peerSki = "ski-peer0"
+const brokenDev = "peerB"
+const brokenSki = "ski-peerB"
 const defaultTmo = 100
 
 type impl struct {
@@ -348,7 +375,6 @@ type impl struct {
 	dev        *spine.DeviceLocal
 	ent        *spine.EntityLocal
 	feat       api.FeatureLocalInterface
-	hb         api.HeartbeatManagerInterface
 	w          *writer
 	peer       api.DeviceRemoteInterface
 	ctr        uint64
@@ -359,6 +385,8 @@ type impl struct {
 	stopped    bool        // something was stopped since the last Read (then Read waits for a stray refresh)
 	ids        []*stream   // model number -> stream
 	adopted    int         // streams of the scheduler that have a model number
+	auxSeq     int64       // fresh entities made by operation First
+	brokenPeer bool        // a peer without outgoing side subscribes before the observed peer
 	nilPanics  bool        // probe result: a stream without feature panics (unrepaired code)
 }
 
@@ -368,6 +396,8 @@ var stats = struct {
 	refreshes   int
 	realTimeRun int
 	bursts      int
+	firstUses   int
+	brokenPeers int
 	stuck       int
 	probe       string
 }{gaps: map[int64][]int64{}}
@@ -378,16 +408,22 @@ func nmAddr(dev string) *model.FeatureAddressType {
 	return &model.FeatureAddressType{Device: util.Ptr(model.AddressDeviceType(dev)), Entity: []model.AddressEntityType{0}, Feature: util.Ptr(model.AddressFeatureType(0))}
 }
 
-func peerFeature() *model.FeatureAddressType {
-	return &model.FeatureAddressType{Device: util.Ptr(model.AddressDeviceType(peerDev)), Entity: []model.AddressEntityType{1}, Feature: util.Ptr(model.AddressFeatureType(1))}
+func peerFeature() *model.FeatureAddressType { return peerFeatureOf(peerDev) }
+
+func peerFeatureOf(dev string) *model.FeatureAddressType {
+	return &model.FeatureAddressType{Device: util.Ptr(model.AddressDeviceType(dev)), Entity: []model.AddressEntityType{1}, Feature: util.Ptr(model.AddressFeatureType(1))}
 }
 
 func (m *impl) send(classifier model.CmdClassifierType, ref *model.MsgCounterType, cmd model.CmdType) {
+	m.sendAs(m.peer, peerDev, classifier, ref, cmd)
+}
+
+func (m *impl) sendAs(peer api.DeviceRemoteInterface, dev string, classifier model.CmdClassifierType, ref *model.MsgCounterType, cmd model.CmdType) {
 	m.ctr++
 	d := model.Datagram{Datagram: model.DatagramType{
 		Header: model.HeaderType{
 			SpecificationVersion: util.Ptr(model.SpecificationVersionType("1.3.0")),
-			AddressSource:        nmAddr(peerDev),
+			AddressSource:        nmAddr(dev),
 			AddressDestination:   nmAddr(localDev),
 			MsgCounter:           util.Ptr(model.MsgCounterType(m.ctr)),
 			MsgCounterReference:  ref,
@@ -399,33 +435,13 @@ func (m *impl) send(classifier model.CmdClassifierType, ref *model.MsgCounterTyp
 	if err != nil {
 		panic(err)
 	}
-	_, _ = m.peer.HandleSpineMesssage(b)
+	_, _ = peer.HandleSpineMesssage(b)
 }
 
-func newImpl() hx.Impl {
-	return &impl{w: &writer{}, threads: map[int64]*worker{}, nilPanics: probeNilFeature()}
-}
-
-func (m *impl) configure(t int64) {
-	m.configured = true
-	m.tmo = t
-	m.sc = &sched{byGoid: map[int64]*worker{}, sByGoid: map[int64]*stream{}, m: m}
-	m.dev = spine.NewDeviceLocal("brand", "model", "serial", "code", localDev, model.DeviceTypeTypeEnergyManagementSystem, model.NetworkManagementFeatureSetTypeSmart)
-	m.ent = spine.NewEntityLocal(m.dev, model.EntityTypeTypeCEM, []model.AddressEntityType{1}, time.Duration(t)*time.Millisecond)
-	m.dev.AddEntity(m.ent)
-	m.feat = m.ent.GetOrAddFeature(model.FeatureTypeTypeDeviceDiagnosis, model.RoleTypeServer)
-	m.hb = m.ent.HeartbeatManager()
-	rd := m.dev.SetupRemoteDevice(peerSki, m.w)
-	m.peer = rd.(api.DeviceRemoteInterface)
-	var ref *model.MsgCounterType
-	for _, b := range m.w.take() {
-		var d model.Datagram
-		if json.Unmarshal(b, &d) == nil && d.Datagram.Header.MsgCounter != nil {
-			ref = d.Datagram.Header.MsgCounter
-		}
-	}
-	devAddr := util.Ptr(model.AddressDeviceType(peerDev))
-	m.send(model.CmdClassifierTypeReply, ref, model.CmdType{NodeManagementDetailedDiscoveryData: &model.NodeManagementDetailedDiscoveryDataType{
+// discovered: the peer answers the detailed discovery read with one entity [1] holding a DeviceDiagnosis client feature
+func (m *impl) discovered(peer api.DeviceRemoteInterface, dev string, ref *model.MsgCounterType) {
+	devAddr := util.Ptr(model.AddressDeviceType(dev))
+	m.sendAs(peer, dev, model.CmdClassifierTypeReply, ref, model.CmdType{NodeManagementDetailedDiscoveryData: &model.NodeManagementDetailedDiscoveryDataType{
 		SpecificationVersionList: &model.NodeManagementSpecificationVersionListType{SpecificationVersion: []model.SpecificationVersionDataType{"1.3.0"}},
 		DeviceInformation: &model.NodeManagementDetailedDiscoveryDeviceInformationType{Description: &model.NetworkManagementDeviceDescriptionDataType{
 			DeviceAddress: &model.DeviceAddressType{Device: devAddr},
@@ -443,18 +459,56 @@ func (m *impl) configure(t int64) {
 		},
 		FeatureInformation: []model.NodeManagementDetailedDiscoveryFeatureInformationType{
 			{Description: &model.NetworkManagementFeatureDescriptionDataType{
-				FeatureAddress: nmAddr(peerDev),
+				FeatureAddress: nmAddr(dev),
 				FeatureType:    util.Ptr(model.FeatureTypeTypeNodeManagement),
 				Role:           util.Ptr(model.RoleTypeSpecial),
 			}},
 			{Description: &model.NetworkManagementFeatureDescriptionDataType{
-				FeatureAddress: peerFeature(),
+				FeatureAddress: peerFeatureOf(dev),
 				FeatureType:    util.Ptr(model.FeatureTypeTypeDeviceDiagnosis),
 				Role:           util.Ptr(model.RoleTypeClient),
 			}},
 		},
 	}})
+}
+
+func newImpl() hx.Impl {
+	return &impl{w: &writer{}, threads: map[int64]*worker{}, nilPanics: probeNilFeature()}
+}
+
+func (m *impl) configure(t int64) {
+	m.configured = true
+	m.tmo = t
+	m.sc = &sched{byGoid: map[int64]*worker{}, sByGoid: map[int64]*stream{}, m: m}
+	m.dev = spine.NewDeviceLocal("brand", "model", "serial", "code", localDev, model.DeviceTypeTypeEnergyManagementSystem, model.NetworkManagementFeatureSetTypeSmart)
+	m.ent = spine.NewEntityLocal(m.dev, model.EntityTypeTypeCEM, []model.AddressEntityType{1}, time.Duration(t)*time.Millisecond)
+	m.dev.AddEntity(m.ent)
+	m.feat = m.ent.GetOrAddFeature(model.FeatureTypeTypeDeviceDiagnosis, model.RoleTypeServer)
+	rd := m.dev.SetupRemoteDevice(peerSki, m.w)
+	m.peer = rd.(api.DeviceRemoteInterface)
+	var ref *model.MsgCounterType
+	for _, b := range m.w.take() {
+		var d model.Datagram
+		if json.Unmarshal(b, &d) == nil && d.Datagram.Header.MsgCounter != nil {
+			ref = d.Datagram.Header.MsgCounter
+		}
+	}
+	m.discovered(m.peer, peerDev, ref)
 	m.w.take()
+	if m.brokenPeer {
+		// a second peer whose connection has no outgoing side subscribes first: notifying it fails, the peer
+		// that subscribes after it must still get every refresh
+		rb := m.dev.SetupRemoteDevice(brokenSki, nil).(api.DeviceRemoteInterface)
+		m.discovered(rb, brokenDev, util.Ptr(model.MsgCounterType(1)))
+		m.sendAs(rb, brokenDev, model.CmdClassifierTypeCall, nil, model.CmdType{NodeManagementSubscriptionRequestCall: &model.NodeManagementSubscriptionRequestCallType{
+			SubscriptionRequest: &model.SubscriptionManagementRequestCallType{ClientAddress: peerFeatureOf(brokenDev), ServerAddress: m.feat.Address(),
+				ServerFeatureType: util.Ptr(model.FeatureTypeTypeDeviceDiagnosis)}}})
+		stats.Lock()
+		if len(m.dev.SubscriptionManager().SubscriptionsOnFeature(*m.feat.Address())) == 1 {
+			stats.brokenPeers++
+		}
+		stats.Unlock()
+	}
 	spine.VerifSetYield(m.sc.yield)
 }
 
@@ -516,7 +570,7 @@ func (m *impl) Close() {
 	go func() {
 		defer close(stopDone)
 		defer func() { _ = recover() }()
-		m.hb.StopHeartbeat()
+		m.ent.HeartbeatManager().StopHeartbeat()
 	}()
 	select {
 	case <-stopDone:
@@ -771,7 +825,12 @@ func (m *impl) adopt(exitedFirst bool) []int64 {
 }
 
 func (m *impl) subscribed() bool {
-	return len(m.dev.SubscriptionManager().SubscriptionsOnFeature(*m.feat.Address())) > 0
+	for _, e := range m.dev.SubscriptionManager().SubscriptionsOnFeature(*m.feat.Address()) {
+		if a := e.ClientFeature.Address(); a != nil && a.Device != nil && string(*a.Device) == peerDev {
+			return true
+		}
+	}
+	return false
 }
 
 func (m *impl) Exec(op hx.Zs) []hx.Zs {
@@ -779,8 +838,11 @@ func (m *impl) Exec(op hx.Zs) []hx.Zs {
 		return []hx.Zs{{97}}
 	}
 	if op[0] == 0 {
-		if len(op) != 2 && len(op) != 3 {
+		if len(op) < 2 || len(op) > 4 {
 			return []hx.Zs{{97}}
+		}
+		if len(op) == 4 && op[3] != 0 && !m.configured {
+			m.brokenPeer = true
 		}
 		if len(op) == 3 && op[2] > 0 && !m.configured {
 			defer m.w.delay.Store(op[2] * int64(time.Millisecond)) // after the set-up traffic
@@ -813,11 +875,11 @@ func (m *impl) Exec(op hx.Zs) []hx.Zs {
 		w := &worker{tid: t, call: c, started: make(chan struct{}), parked: make(chan int64, 1), resume: make(chan struct{}), done: make(chan struct{})}
 		switch c {
 		case 0:
-			w.run = func() { w.retB = m.hb.IsHeartbeatRunning() }
+			w.run = func() { w.retB = m.ent.HeartbeatManager().IsHeartbeatRunning() }
 		case 1:
-			w.run = func() { m.hb.StopHeartbeat() }
+			w.run = func() { m.ent.HeartbeatManager().StopHeartbeat() }
 		case 2:
-			w.run = func() { w.err = m.hb.StartHeartbeat() }
+			w.run = func() { w.err = m.ent.HeartbeatManager().StartHeartbeat() }
 		case 3:
 			w.run = func() { m.feat.AddFunctionType(model.FunctionTypeDeviceDiagnosisHeartbeatData, true, false) }
 		case 4:
@@ -888,6 +950,11 @@ func (m *impl) Exec(op hx.Zs) []hx.Zs {
 			return []hx.Zs{{97}}
 		}
 		return m.burst(op[1], int(op[2]), int(op[3]), period)
+	case 9: // First mode k
+		if len(op) != 3 {
+			return []hx.Zs{{97}}
+		}
+		return m.firstUse(op[1], int(op[2]))
 	case 7:
 		if m.stopped || len(op) > 1 {
 			// a refresh of a stream that was not stopped properly would arrive within one period
@@ -909,6 +976,102 @@ func (m *impl) Exec(op hx.Zs) []hx.Zs {
 	return []hx.Zs{{97}}
 }
 
+// firstUse: k fresh entities on this device; on each, AddFunctionType(heartbeat) and the first other access to the
+// entity's heartbeat (mode 0 IsHeartbeatRunning, 1 HeartbeatManager(), 2 StartHeartbeat) are released together from
+// a spinning start; nothing touched the entity's heartbeat before.  Then all heartbeats run for a period and a half,
+// are stopped (even ones by StopHeartbeat, odd ones by RemoveEntity) and their data is watched for 3.5 periods.
+func (m *impl) firstUse(mode int64, k int) []hx.Zs {
+	if k < 1 {
+		k = 1
+	}
+	if k > 128 {
+		k = 128
+	}
+	const auxTmo = 100 * time.Millisecond
+	type aux struct {
+		ent  *spine.EntityLocal
+		feat api.FeatureLocalInterface
+		c1   int64
+	}
+	counterOf := func(f api.FeatureLocalInterface) int64 {
+		d, err := spine.LocalFeatureDataCopyOfType[*model.DeviceDiagnosisHeartbeatDataType](f, model.FunctionTypeDeviceDiagnosisHeartbeatData)
+		if err != nil || d == nil || d.HeartbeatCounter == nil {
+			return -1
+		}
+		return int64(*d.HeartbeatCounter)
+	}
+	auxMode.Store(true)
+	before := auxStarted.Load()
+	auxs := make([]*aux, k)
+	for i := range auxs {
+		m.auxSeq++
+		e := spine.NewEntityLocal(m.dev, model.EntityTypeTypeCEM, []model.AddressEntityType{model.AddressEntityType(1000 + m.auxSeq)}, auxTmo)
+		m.dev.AddEntity(e)
+		a := &aux{ent: e, feat: e.GetOrAddFeature(model.FeatureTypeTypeDeviceDiagnosis, model.RoleTypeServer)}
+		auxs[i] = a
+		var ready sync.WaitGroup
+		var done sync.WaitGroup
+		var gate atomic.Bool
+		ready.Add(2)
+		done.Add(2)
+		go func() {
+			defer done.Done()
+			ready.Done()
+			for !gate.Load() {
+			}
+			a.feat.AddFunctionType(model.FunctionTypeDeviceDiagnosisHeartbeatData, true, false)
+		}()
+		go func() {
+			defer done.Done()
+			ready.Done()
+			for !gate.Load() {
+			}
+			switch mode {
+			case 0:
+				_ = a.ent.HeartbeatManager().IsHeartbeatRunning()
+			case 1:
+				_ = a.ent.HeartbeatManager()
+			default:
+				_ = a.ent.HeartbeatManager().StartHeartbeat()
+			}
+		}()
+		ready.Wait()
+		gate.Store(true)
+		done.Wait()
+	}
+	// every AddFunctionType started a stream; let them register while they are still recognised as auxiliary
+	for deadline := time.Now().Add(2 * time.Second); auxStarted.Load() < before+int64(k) && time.Now().Before(deadline); {
+		time.Sleep(200 * time.Microsecond)
+	}
+	time.Sleep(auxTmo + auxTmo/2)
+	var notRunning, leaky int64
+	for i, a := range auxs {
+		if !a.ent.HeartbeatManager().IsHeartbeatRunning() {
+			notRunning++
+		}
+		if i%2 == 0 {
+			a.ent.HeartbeatManager().StopHeartbeat()
+		} else {
+			m.dev.RemoveEntity(a.ent)
+		}
+		a.c1 = counterOf(a.feat)
+	}
+	time.Sleep(3*auxTmo + auxTmo/2)
+	for i, a := range auxs {
+		if counterOf(a.feat)-a.c1 > 1 { // one refresh may have been in flight
+			leaky++
+		}
+		if i%2 == 0 {
+			m.dev.RemoveEntity(a.ent)
+		}
+	}
+	auxMode.Store(false)
+	stats.Lock()
+	stats.firstUses += k
+	stats.Unlock()
+	return []hx.Zs{{18, notRunning, leaky}}
+}
+
 // burst: k StartHeartbeat calls with nothing parked in between (mode 0: back to back from this goroutine with
 // one P, so that none of the spawned goroutines runs before the last start returned; otherwise k goroutines
 // released together), then every stream runs freely until n refreshes happened; reported: the stream left
@@ -927,7 +1090,7 @@ func (m *impl) burst(mode int64, k, n int, period time.Duration) []hx.Zs {
 		}
 	}
 	if !m.added.Load() {
-		if err := m.hb.StartHeartbeat(); err != nil {
+		if err := m.ent.HeartbeatManager().StartHeartbeat(); err != nil {
 			return []hx.Zs{{7}}
 		}
 		return []hx.Zs{{96}} // a stream without feature (unrepaired code): not continued
@@ -943,7 +1106,7 @@ func (m *impl) burst(mode int64, k, n int, period time.Duration) []hx.Zs {
 	if mode == 0 {
 		old := runtime.GOMAXPROCS(1)
 		for i := 0; i < k; i++ {
-			errs[i] = m.hb.StartHeartbeat()
+			errs[i] = m.ent.HeartbeatManager().StartHeartbeat()
 		}
 		runtime.GOMAXPROCS(old)
 	} else {
@@ -954,7 +1117,7 @@ func (m *impl) burst(mode int64, k, n int, period time.Duration) []hx.Zs {
 			go func(i int) {
 				defer wg.Done()
 				<-gate
-				errs[i] = m.hb.StartHeartbeat()
+				errs[i] = m.ent.HeartbeatManager().StartHeartbeat()
 			}(i)
 		}
 		close(gate)
@@ -1290,6 +1453,20 @@ func gen(r *hx.Rng, tier string, i int) []hx.Zs {
 		h = append(h, seq(1, int64(r.Pick(1, 1))*3+1)...)
 		h = append(h, hx.Zs{3, streams - 1}, hx.Zs{7, 1}, hx.Zs{3, streams - 1}, call(0, 0))
 		return h
+	case i%12 == 10: // overlapped first use of fresh entities somewhere in an ordinary life
+		h = []hx.Zs{{0, 100}}
+		if r.Bool() {
+			h = append(h, hx.Zs{5})
+		}
+		first := hx.Zs{9, int64(r.Intn(3)), int64(r.Range(24, 64))}
+		if r.Bool() {
+			h = append(h, first)
+		}
+		h = append(h, seq(0, 3)...)
+		h = append(h, hx.Zs{3, 0}, first, hx.Zs{3, 0}, call(1, 0))
+		h = append(h, seq(1, int64(r.Pick(1, 1))*3+1)...)
+		h = append(h, hx.Zs{3, 0}, hx.Zs{7}, call(0, 0))
+		return h
 	case i%16 == 7: // the subscribed peer sits behind a slow connection: the period must not stretch
 		tm = []int64{300, 400}[r.Intn(2)]
 		h = []hx.Zs{{0, tm, tm * 2 / 3}, {5}}
@@ -1298,6 +1475,9 @@ func gen(r *hx.Rng, tier string, i int) []hx.Zs {
 		h = append(h, seq(1, 1)...)
 		h = append(h, hx.Zs{3, 0}, hx.Zs{7})
 		return h
+	}
+	if r.Chance(1, 5) {
+		h[0] = hx.Zs{0, tm, 0, 1} // a subscriber that cannot be notified is there first
 	}
 	if r.Chance(2, 3) {
 		h = append(h, hx.Zs{5})
@@ -1449,6 +1629,17 @@ func fixed(tier string) [][]hx.Zs {
 		cat([]hx.Zs{{0, 400, 260}, {5}}, add, []hx.Zs{{4, 0, 3}}, seq(1, 1), []hx.Zs{{3, 0}, {7}}),
 	)
 	hs = append(hs,
+		// a peer that cannot be notified (no outgoing side) subscribed before the observed one: every refresh still reaches the latter
+		cat([]hx.Zs{{0, 100, 0, 1}, {5}}, add, []hx.Zs{{3, 0}, {4, 0, 3}}, seq(1, 1), []hx.Zs{{3, 0}, {7}}),
+		cat([]hx.Zs{{0, 200, 0, 1}}, add, []hx.Zs{{3, 0}, {5}, {3, 0}, {8, 0, 2, 4}, {6}, {3, 2}}, seq(1, 4), []hx.Zs{{3, 2}, {7}}),
+	)
+	hs = append(hs,
+		// first use of fresh entities with two accesses released together (48 entities each), around ordinary use of this entity
+		cat([]hx.Zs{{0, 100}, {5}, {9, 0, 48}}, add, []hx.Zs{{3, 0}}, seq(1, 1), []hx.Zs{{3, 0}, {7}}),
+		cat([]hx.Zs{{0, 100}}, add, []hx.Zs{{9, 1, 48}, {3, 0}, call(1, 1), {9, 2, 32}, resume(1), {3, 0}, {7, 1}, call(0, 0)}),
+		cat([]hx.Zs{{0, 200}, {5}, {9, 2, 48}}, add, []hx.Zs{{3, 0}, {9, 0, 48}}, seq(1, 4), []hx.Zs{{3, 0}, {7}}),
+	)
+	hs = append(hs,
 		// configured timeouts with more digits than the announced text keeps: 190 ms and 295 ms are announced as 100 / 200 ms
 		// and the stream must keep the announced period; 2.05 s is announced as 2 s, which is not above the threshold
 		cat([]hx.Zs{{0, 190}, {5}}, add, []hx.Zs{{4, 0, 4}, {3, 0}}, seq(1, 1), []hx.Zs{{3, 0}, {7}}),
@@ -1480,7 +1671,7 @@ func extra() map[string]any {
 		gaps[fmt.Sprintf("timeout_%dms", t)] = map[string]any{"expected_period_ms": exp, "gaps": len(s), "min_ms": s[0], "median_ms": s[len(s)/2], "max_ms": s[len(s)-1],
 			"tolerance_ms": tolOf(t).Milliseconds()}
 	}
-	return map[string]any{"measured_periods": gaps, "refreshes_observed": stats.refreshes, "real_time_runs": stats.realTimeRun, "bursts": stats.bursts, "stuck_calls_or_streams": stats.stuck,
+	return map[string]any{"measured_periods": gaps, "refreshes_observed": stats.refreshes, "real_time_runs": stats.realTimeRun, "bursts": stats.bursts, "histories_with_a_subscribed_peer_that_cannot_be_notified": stats.brokenPeers, "overlapped_first_uses_of_fresh_entities": stats.firstUses, "stuck_calls_or_streams": stats.stuck,
 		"start_without_feature_probe": stats.probe,
 		"runtime_parts":               "wall-clock period (measured per real-time run, tolerance 60 ms + timeout/4), timestamp within 1.5 s of the observation, select's choice (forced through the hooks) are measured, not proved"}
 }
@@ -1495,11 +1686,11 @@ func main() {
 		Clauses: map[int64]string{1: "panic", 2: "counter-not-increasing", 3: "refresh-not-notified-once", 4: "two-concurrent-streams",
 			5: "refresh-after-stop", 6: "period-exceeds-timeout", 7: "stale-timestamp-or-timeout", 8: "running-flag-wrong",
 			9: "data-changed-without-refresh", 10: "malformed-observation", 11: "call-or-stream-stuck", 98: "unparseable-observation", 99: "unparseable-operation"},
-		OpNames: map[int64]string{0: "setup", 1: "call", 2: "resume", 3: "tick", 4: "run-real-time", 5: "subscribe", 6: "unsubscribe", 7: "read", 8: "burst-of-starts"},
+		OpNames: map[int64]string{0: "setup", 1: "call", 2: "resume", 3: "tick", 4: "run-real-time", 5: "subscribe", 6: "unsubscribe", 7: "read", 8: "burst-of-starts", 9: "first-use-overlap"},
 		NewImpl: newImpl,
 		Gen:     gen,
 		Fixed:   fixed,
-		Count:   map[string]int{"quick": 36, "thorough": 1100},
+		Count:   map[string]int{"quick": 30, "thorough": 1100},
 		Extra:   extra,
 	})
 }
